@@ -403,6 +403,85 @@ def check_init_histories(c, rng, n):
             c.viol("memory-init-history:exception", case=desc, exception=repr(ex)[:300])
 
 
+def check_other_forms(c, rng, n):
+    """The same laws through other accepted argument forms: memory rows handed over as bytes / bytearray / tuple /
+    range / generator, and constants built from enumeration members with an explicit shape given as an int width
+    (including 0), a range (including empty ones) or a Shape."""
+    import enum as pyenum
+    from amaranth.hdl import Shape, Const, MemoryData
+    from amaranth.lib import memory as libmem, enum as aenum
+
+    class PE(pyenum.Enum):
+        A = 1
+        B = 5
+
+    class IE(pyenum.IntEnum):
+        N = -3
+        P = 2
+
+    class AE(aenum.Enum, shape=4):
+        X = 9
+        Y = 3
+    members = list(PE) + list(IE) + list(AE)
+    shapes = [0, 1, 3, 9, Shape(0, False), Shape(2, True), Shape(4, False), range(0), range(4, 4), range(-2, 5), range(16)]
+    for m in members:
+        for sh in shapes:
+            if isinstance(sh, int):
+                if sh == 0 and m.value < 0:
+                    continue        # (an int width with a negative value means signed(width): signed(0) does not exist)
+                es = Shape(sh, m.value < 0)
+            else:
+                es = Shape.cast(sh)
+            c.case("const-from-enum-member", [type(m).__name__, m.name, repr(sh)])
+            ok, k = c.guard("const-from-enum-member", lambda: Const(m, sh), member=repr(m), shape=repr(sh))
+            if not ok:
+                continue
+            ev = norm(m.value, es.width, es.signed)
+            if k.shape() != es or k.value != ev:
+                c.viol("const-from-enum-member-with-explicit-shape", member=repr(m), shape=repr(sh), got=[repr(k.shape()), k.value],
+                       expected=[repr(es), ev])
+    for _ in range(n):
+        w = rng.choice([1, 4, 7, 8, 8, 9, 16])
+        sg = rng.random() < 0.5
+        depth = rng.randrange(1, 7)
+        vals = [rng.choice([0, 1, 127, 128, 200, 255, rng.randrange(256)]) for _ in range(rng.randrange(0, depth + 1))]
+        form = rng.choice(["bytes", "bytearray", "tuple", "generator", "list", "range"])
+        if form == "range":
+            vals = list(range(rng.randrange(0, 200), 256))[:rng.randrange(0, depth + 1)]
+        mk = {"bytes": lambda: bytes(vals), "bytearray": lambda: bytearray(vals), "tuple": lambda: tuple(vals),
+              "generator": lambda: (v for v in vals), "list": lambda: list(vals),
+              "range": lambda: range(vals[0], vals[0] + len(vals)) if vals else range(0)}[form]
+        how = rng.choice(["MemoryData", "Memory", "init-setter", "slice"])
+        c.case("memory-init-form", [form, how, w, sg, vals], nontrivial=bool(vals))
+        c.out["hist"]["memory-init-form:" + form] = c.out["hist"].get("memory-init-form:" + form, 0) + 1
+        import warnings
+        try:
+            with warnings.catch_warnings():
+                warnings.simplefilter("ignore")
+                if how == "MemoryData":
+                    obj = MemoryData(shape=Shape(w, sg), depth=depth, init=mk())
+                elif how == "Memory":
+                    obj = libmem.Memory(shape=Shape(w, sg), depth=depth, init=mk())
+                elif how == "init-setter":
+                    obj = MemoryData(shape=Shape(w, sg), depth=depth, init=[])
+                    obj.init = mk()
+                else:
+                    obj = MemoryData(shape=Shape(w, sg), depth=depth, init=[])
+                    if form == "generator":
+                        obj.init[0:len(vals)] = list(mk())
+                    else:
+                        obj.init[0:len(vals)] = mk()
+            rows = list(obj.init)
+        except Exception as ex:
+            if exc_origin(ex) != "repo":
+                raise
+            c.viol("memory-init-form:exception", form=form, how=how, shape=[w, sg], values=vals, exception=repr(ex)[:200])
+            continue
+        exp = [norm(v, w, sg) for v in vals] + [0] * (depth - len(vals))
+        if rows != exp:
+            c.viol("memory-init-rows-not-wrapped:" + form, how=how, shape=[w, sg], values=vals, rows=rows, expected=exp)
+
+
 def run_shard(spec):
     instrument.install_construction_contracts()
     c = Ctx()
@@ -417,6 +496,7 @@ def run_shard(spec):
     check_const_cast(c, rng, 400 if tier == "quick" else 60000)
     check_inits(c, part, parts, 6 if tier == "quick" else 10)
     check_init_histories(c, rng, 150 if tier == "quick" else 6000)
+    check_other_forms(c, rng, 100 if tier == "quick" else 4000)
     out = c.out
     out["violations"].extend(instrument.VIOLATIONS)
     instrument.VIOLATIONS.clear()
